@@ -2,6 +2,7 @@
 import itertools
 import math
 import random
+import re
 
 import numpy as np
 
@@ -33,10 +34,21 @@ RULE = ("per case: all 6 wrapper orders on a lambda and on a string; a random ca
 SHRINK_LISTS = ["calls", "records"]
 SHRINK_SPECS = []
 
-ARGS = ["s1", "s2", "s2i", "a222", "a222b", "a12", "a12same", "a2", "a22", "s2np", "kw1", "kw2", "kw2b"]
-EXPRS_MULTI = ["x + y * 2", "x > 1 and y < 3", "abs(x - y)", "(x + y) / 2.0", "x ** 2 - z", "sqrt(x * x) + z", "x if x > y else y",
-               "not (x > 1)", "max(x, y, z)", "x * (y + z) - 1", "floor(x) + ceil(y)", "(x > y) or (z > 0)"]
-EXPRS_SINGLE = ["x + 1", "x * x", "sqrt(x * x) + 1", "x > 1", "abs(x) / 2.0", "x if x > 0 else -x", "floor(x)", "2 ** x"]
+ARGS = ["s1", "s2", "s2i", "a222", "a222b", "a12", "a12same", "a2", "a22", "s2np", "kw1", "kw2", "kw2b",
+        "d1", "d1b", "d12", "d12b", "d34", "d12same"]
+# expression templates over three record fields A, B, C (renamed per case, see NAMES)
+EXPRS_MULTI = ["A + B * 2", "A > 1 and B < 3", "abs(A - B)", "(A + B) / 2.0", "A ** 2 - C", "sqrt(A * A) + C", "A if A > B else B",
+               "not (A > 1)", "max(A, B, C)", "A * (B + C) - 1", "floor(A) + ceil(B)", "(A > B) or (C > 0)"]
+EXPRS_SINGLE = ["A + 1", "A * A", "sqrt(A * A) + 1", "A > 1", "abs(A) / 2.0", "A if A > 0 else -A", "floor(A)", "2 ** A"]
+# field names of the records; several coincide with names the evaluation namespace already holds (math.e, math.pi, ...):
+# a field of a record must win over them
+NAMES = [("x", "y", "z"), ("x", "y", "z"), ("e", "pt", "eta"), ("pi", "x", "tau"), ("x", "gamma", "e"), ("mass", "inf", "nan")]
+
+
+def rename(expr, names):
+    import re
+
+    return re.sub(r"\b([ABC])\b", lambda m: names["ABC".index(m.group(1))], expr)
 
 
 def gen_params(rng, tier):
@@ -49,7 +61,10 @@ def gen_params(rng, tier):
     for _ in range(rng.randint(3, 8)):
         kind = rng.choice(["dict", "attr"] + (["scalar", "scalar"] if not multi else []))
         recs.append([kind, rng.randint(-8, 12) / 4.0, rng.randint(-8, 12) / 4.0, rng.randint(-8, 12) / 4.0])
-    return {"order": order, "calls": calls, "expr": expr, "multi": multi, "records": recs, "name": rng.choice(["n", "myname", "q"])}
+    # bare scalars have no field names: the single variable is discovered from the expression, so it must not be a known name
+    names = list(rng.choice(NAMES)) if multi or not any(r[0] == "scalar" for r in recs) else ["x", "y", "z"]
+    return {"order": order, "calls": calls, "expr": expr, "multi": multi, "records": recs, "name": rng.choice(["n", "myname", "q"]),
+            "names": names}
 
 
 def build(p):
@@ -57,20 +72,44 @@ def build(p):
 
 
 class Rec:
-    def __init__(self, x, y, z):
-        self.x, self.y, self.z = x, y, z
+    def __init__(self, x, y, z, names=("x", "y", "z")):
+        for n, v in zip(names, (x, y, z)):
+            setattr(self, n, v)
 
 
 def arg_pool():
     a222 = np.array([2.0, 2.0, 2.0])
     a12 = np.array([1.0, 2.0])
+    d12 = Dict({"x": np.array([1.0, 2.0])})
     pool = {
         "s1": ((1.0,), {}), "s2": ((2.0,), {}), "s2i": ((2,), {}), "s2np": ((np.float64(2.0),), {}),
         "a222": ((a222,), {}), "a222b": ((np.array([2.0, 2.0, 2.0]),), {}), "a12": ((a12,), {}), "a12same": ((a12,), {}),
         "a2": ((np.array([2.0]),), {}), "a22": ((np.array([2.0, 2.0]),), {}),
         "kw1": ((), {"x": 1.0}), "kw2": ((), {"x": 2.0}), "kw2b": ((), {"x": np.array([2.0, 2.0])}),
+        # records: a dict of scalars (one row) or of arrays (a batch, as fill.numpy passes it)
+        "d1": ((Dict({"x": 1.0}),), {}), "d1b": ((Dict({"x": 1.0}),), {}),
+        "d12": ((d12,), {}), "d12same": ((d12,), {}), "d12b": ((Dict({"x": np.array([1.0, 2.0])}),), {}),
+        "d34": ((Dict({"x": np.array([3.0, 4.0])}),), {}),
     }
     return pool
+
+
+class Dict(dict):
+    """a record; arithmetic on it means arithmetic on its field x (so that one test function serves every argument)"""
+
+    def __mul__(self, k):
+        return self["x"] * k
+
+
+def same_arg(x, y):
+    """the argument equality a memo needs: same object, or equal values (arrays and records of arrays included)"""
+    if x is y:
+        return True
+    if isinstance(x, dict) and isinstance(y, dict):
+        return x.keys() == y.keys() and all(same_arg(x[k], y[k]) for k in x)
+    if isinstance(x, dict) or isinstance(y, dict):
+        return False
+    return bool(np.array_equal(x, y))
 
 
 def same_value(a, b):
@@ -84,7 +123,7 @@ def token_of(args, kwds, tokens):
     numpy.array_equal (which requires equal shapes)"""
     for tok, (a2, k2) in enumerate(tokens):
         if len(a2) == len(args) and set(k2) == set(kwds):
-            if all(x is y or np.array_equal(x, y) for x, y in zip(args, a2)) and all(kwds[k] is k2[k] or np.array_equal(kwds[k], k2[k]) for k in kwds):
+            if all(same_arg(x, y) for x, y in zip(args, a2)) and all(same_arg(kwds[k], k2[k]) for k in kwds):
                 return tok
     tokens.append((args, kwds))
     return len(tokens) - 1
@@ -172,17 +211,23 @@ class C17Exec(execs.PyExec):
             toks.append(token_of(args, kwds, tokens))
         self.model_queries.append(("cachedrun", toks, misses[:len(toks)]))
         # 3. string expression against the equivalent Python function, interleaved record kinds on one wrapper
-        expr = p["expr"]
+        names = p.get("names") or ["x", "y", "z"]
+        template = p["expr"]
+        if not re.search(r"\b[ABC]\b", template):
+            # replay files written before the fields were renamed hold the expression over x, y, z
+            template = re.sub(r"\b([xyz])\b", lambda m: "ABC"["xyz".index(m.group(1))], template)
+            names = ["x", "y", "z"]
         ns = dict(math.__dict__)
-        ref = eval("lambda x, y=0.0, z=0.0: " + expr, ns)  # noqa: S307 - the reference function
+        ref = eval("lambda A, B=0.0, C=0.0: " + template, ns)  # noqa: S307 - the reference function
+        expr = rename(template, names)
         u = UserFcn(expr)
         c = cached(expr)
         for kind, x, y, z in p["records"]:
             want = ref(x, y, z)
             if kind == "dict":
-                d = {"x": x, "y": y, "z": z}
+                d = {names[0]: x, names[1]: y, names[2]: z}
             elif kind == "attr":
-                d = Rec(x, y, z)
+                d = Rec(x, y, z, names)
             else:
                 d = x
                 want = ref(x)
@@ -198,9 +243,10 @@ class C17Exec(execs.PyExec):
                     break
         # aggregators built from the string and from the function are filled identically
         if not isinstance(ref(1.0, 1.0, 1.0), bool):
-            rows = [{"x": r[1], "y": r[2], "z": r[3]} for r in p["records"]]
+            n0, n1, n2 = names
+            rows = [{n0: r[1], n1: r[2], n2: r[3]} for r in p["records"]]
             hs = hg.Bin(4, -2.0, 6.0, expr, hg.Sum(expr))
-            hf = hg.Bin(4, -2.0, 6.0, lambda d: ref(d["x"], d["y"], d["z"]), hg.Sum(lambda d: ref(d["x"], d["y"], d["z"])))
+            hf = hg.Bin(4, -2.0, 6.0, lambda d: ref(d[n0], d[n1], d[n2]), hg.Sum(lambda d: ref(d[n0], d[n1], d[n2])))
             for r in rows:
                 hs.fill(r)
                 hf.fill(r)
